@@ -199,7 +199,7 @@ def r3(ctx: Context, sites) -> None:
     if sel:
         s = sel[0]
         ps = sqlmini.param_exprs(s) or []
-        ok = isinstance(s.text_node, ast.Constant) and "LIKE ?" in s.template and len(ps) == 1 and isinstance(ps[0], ast.JoinedStr) and ast.unparse(ps[0]) == "f'{" + d.params[1] + "}%'"
+        ok = "{" not in s.template and "LIKE ?" in s.template and len(ps) == 1 and isinstance(ps[0], ast.JoinedStr) and ast.unparse(ps[0]) == "f'{" + d.params[1] + "}%'"
     ctx.add("R3", "prefix-delete::pattern-bound-as-parameter", ok, d.loc(), "" if ok else "the LIKE pattern is not exactly f'{prefix}%' bound as a parameter")
     # forgeability of the prefix under prefix matching
     f = m.functions["sanitize_table_prefix"]
